@@ -508,3 +508,146 @@ def run(ctx, rep):
     # tips sit at *their* sampling time: sampling dates are stored in Taxa order, so a leaf's index must be the position of its taxon in that list
     from props import c02
     c02.check_leaf_index(ctx, rep, 'C06.F', 'tips::')
+    rep.rule('C06.C', "every conversion of sampling dates into tip heights follows one convention in the four sign cases of (earliest, most recent) date: the date itself when the earliest is zero, most recent − date otherwise")
+    check_date_conventions(ctx, rep)
+
+
+# ---------------------------------------------------------------------------
+# C06.C — date conventions: every place that turns sampling dates into heights follows one convention
+# ---------------------------------------------------------------------------
+def date_convention_table(fn: ast.FunctionDef):
+    """{(min_is_zero, max_is_zero): set of formula classes stored as a tip height}, by partial evaluation of the tests on min(dates) / max(dates) for the four sign
+    cases.  Formula classes: 'date' (the date itself), 'max-date' (most recent date minus the date), 'zero'."""
+    defs = {}
+    for st in ast.walk(fn):
+        if isinstance(st, ast.Assign) and len(st.targets) == 1 and isinstance(st.targets[0], ast.Name) and isinstance(st.value, ast.Call) and isinstance(st.value.func, ast.Name) \
+                and st.value.func.id in ('max', 'min') and len(st.value.args) == 1:
+            defs[st.targets[0].id] = st.value.func.id
+
+    def which(e):
+        if isinstance(e, ast.Name) and e.id in defs:
+            return defs[e.id]
+        if isinstance(e, ast.Call) and isinstance(e.func, ast.Name) and e.func.id in ('max', 'min') and len(e.args) == 1:
+            return e.func.id
+        return None
+
+    def test(t, case):
+        if isinstance(t, ast.BoolOp):
+            vals = [test(v, case) for v in t.values]
+            return all(vals) if isinstance(t.op, ast.And) else any(vals)
+        if isinstance(t, ast.UnaryOp) and isinstance(t.op, ast.Not):
+            return not test(t.operand, case)
+        if isinstance(t, ast.Compare) and len(t.ops) == 1 and isinstance(t.comparators[0], ast.Constant) and t.comparators[0].value in (0, 0.0) and which(t.left):
+            zero = case[0] if which(t.left) == 'min' else case[1]
+            if isinstance(t.ops[0], ast.Eq):
+                return zero
+            if isinstance(t.ops[0], ast.NotEq):
+                return not zero
+        raise Unsupported(t, f"test {ast.unparse(t)} is not a comparison of min / max of the dates with zero")
+
+    delegated = set()      # locals that hold the result of another function (a conversion done elsewhere and decided there)
+    for st in ast.walk(fn):
+        if isinstance(st, ast.Assign) and len(st.targets) == 1 and isinstance(st.targets[0], ast.Name) and isinstance(st.value, ast.Call) \
+                and not (isinstance(st.value.func, ast.Name) and st.value.func.id in ('max', 'min', 'list', 'tuple', 'float', 'len', 'sorted')):
+            delegated.add(st.targets[0].id)
+
+    def classify(e):
+        if isinstance(e, ast.Constant) and e.value in (0, 0.0):
+            return 'zero'
+        base = e
+        while isinstance(base, ast.Subscript):
+            base = base.value
+        if isinstance(base, ast.Name) and base.id in delegated:
+            return None
+        for x in ast.walk(e):
+            if isinstance(x, ast.BinOp) and isinstance(x.op, ast.Sub) and which(x.left) == 'max':
+                return 'max-date'
+        if isinstance(e, (ast.ListComp, ast.GeneratorExp)):
+            return classify(e.elt)
+        if isinstance(e, ast.BinOp) and isinstance(e.op, ast.Mult) and isinstance(e.left, ast.List) and len(e.left.elts) == 1:
+            return classify(e.left.elts[0])
+        if isinstance(e, ast.Call) and isinstance(e.func, ast.Name) and e.func.id in ('list', 'tuple', 'float') and len(e.args) == 1:
+            return classify(e.args[0])
+        if any(isinstance(x, (ast.Subscript, ast.Name, ast.Attribute)) for x in ast.walk(e)) and not any(isinstance(x, ast.BinOp) for x in ast.walk(e)):
+            return 'date'
+        raise Unsupported(e, f"tip height `{ast.unparse(e)[:40]}` is neither the date, max − date nor zero")
+
+    def is_height_store(st):
+        if isinstance(st, ast.Return) and st.value is not None:
+            v = st.value
+            listy = isinstance(v, (ast.ListComp, ast.List)) or (isinstance(v, ast.Call) and isinstance(v.func, ast.Name) and v.func.id in ('list', 'tuple')) \
+                or (isinstance(v, ast.BinOp) and isinstance(v.op, ast.Mult) and isinstance(v.left, ast.List))
+            return v if listy else None
+        if isinstance(st, ast.Assign) and len(st.targets) == 1:
+            t = st.targets[0]
+            if isinstance(t, ast.Attribute) and t.attr == 'date':
+                return st.value
+            if isinstance(t, ast.Subscript) and isinstance(t.value, ast.Name) and 'height' in t.value.id:
+                return st.value
+        return None
+
+    params = {a.arg for a in fn.args.args + fn.args.kwonlyargs}
+    consulted = [False]
+
+    def run(stmts, case, out):
+        for st in stmts:
+            if isinstance(st, ast.If) and isinstance(st.test, ast.Name) and st.test.id in params:
+                # a flag of the caller (`heterochronous`): the branch in which the dates are looked at is the conversion; the other one is the caller's declaration
+                for blk in (st.body, st.orelse):
+                    sub = set()
+                    before = consulted[0]
+                    consulted[0] = False
+                    run(blk, case, sub)
+                    if consulted[0]:
+                        out |= sub
+                    consulted[0] = before or consulted[0]
+            elif isinstance(st, ast.If):
+                consulted[0] = True
+                run(st.body if test(st.test, case) else st.orelse, case, out)
+            elif isinstance(st, (ast.For, ast.With)):
+                run(st.body, case, out)
+            else:
+                v = is_height_store(st)
+                if v is not None:
+                    c_ = classify(v)
+                    if c_ is not None:
+                        out.add(c_)
+    table = {}
+    for case in ((True, True), (True, False), (False, True), (False, False)):
+        out = set()
+        run(fn.body, case, out)
+        table[case] = out
+    return table
+
+
+def check_date_conventions(ctx, rep):
+    """tips sit at `most recent date − date` (dates are calendar-like) unless the earliest date is zero (dates are already ages).  Every function of the tree models that
+    converts dates — the heights given to the nodes of a parsed tree and the sampling times of a time tree — must give the same answer in the four sign cases; in
+    particular dates that are all ≤ 0 with the most recent one exactly 0 are heterochronous (height = −date), not 'all zero'."""
+    m = ctx.prog.module('torchtree.evolution.tree_model')
+    fns = []
+    for name, fn in m.functions.items():
+        if any(isinstance(c, ast.Call) and isinstance(c.func, ast.Name) and c.func.id in ('max', 'min') and c.args and 'date' in ast.unparse(c.args[0]) for c in ast.walk(fn)):
+            fns.append((name, fn))
+    for cname, cnode in m.classes.items():
+        for b in cnode.body:
+            if isinstance(b, ast.FunctionDef) and any(isinstance(c, ast.Call) and isinstance(c.func, ast.Name) and c.func.id in ('max', 'min') and c.args and 'date' in ast.unparse(c.args[0])
+                                                        for c in ast.walk(b)):
+                fns.append((f"{cname}.{b.name}", b))
+    if len(fns) < 2:
+        rep.incomplete('C06.C', '*', '', f"only {len(fns)} date-to-height conversions found in tree_model.py")
+    want = {(True, True): {'date', 'zero', 'max-date'}, (True, False): {'date'}, (False, True): {'max-date'}, (False, False): {'max-date'}}
+    label = {(True, True): 'all dates zero', (True, False): 'earliest date zero (ages)', (False, True): 'dates ≤ 0 with the most recent one exactly 0', (False, False): 'calendar dates'}
+    for name, fn in fns:
+        try:
+            table = date_convention_table(fn)
+        except Unsupported as u:
+            rep.undecided('C06.C', f"{name}::date-convention", where(m, u.node or fn), str(u))
+            continue
+        if not any(table.values()):
+            continue        # reads min / max of dates but stores no tip height (a caller of the conversion)
+        for case in sorted(want):
+            got = table[case]
+            rep.check('C06.C', f"{name}::{label[case]}", bool(got) and got <= want[case], where(m, fn), {'stored_as_tip_height': sorted(got), 'expected': sorted(want[case])},
+                      f"{name}: for {label[case]} the tips are given {sorted(got)} as height; the convention (and the sibling conversion) is {sorted(want[case])} — tips then sit at "
+                      f"heights that do not match their sampling dates, and heights initialised from a tree are inconsistent with the sampling times of the model")
